@@ -701,7 +701,7 @@ def run_property(prop, tier='quick', only=None, verbose=False):
             rec['inspected'] = ctx.inspected
             if ctx.notes:
                 rec['notes'] = ctx.notes
-            if ctx.sites == 0:
+            if ctx.sites == 0 and not ctx.findings:
                 raise AnalysisError('%s inspected no construct (vacuous)' % ob.oid)
             fs_new, fs_known = [], []
             for f in ctx.findings:
